@@ -14,11 +14,13 @@
                re-indexed, not dropped);
      height 2  the EMPTY block (a stale entry points at nothing);
      height 3  DISJOINT and LONGER <<deploy, l1 handler', deploy account, declare>>: every kind
-               sits in a slot that variant 0 occupied. *)
+               sits in a slot that variant 0 occupied.
+   Variant 2 (the section scenarios' block with an empty state diff) carries no transaction. *)
 EXTENDS RpcRead
 
 MCTxs(n, v) ==
   IF v = 0 THEN (IF n = 2 THEN <<21, 22, 23, 28>> ELSE <<10 * n + 1, 10 * n + 2, 10 * n + 3>>)
+  ELSE IF v = 2 THEN <<>>
   ELSE CASE n = 0 -> <<7, 6, 5>>
          [] n = 1 -> <<12, 14, 15>>
          [] n = 2 -> <<>>
